@@ -206,12 +206,12 @@ where
     let refs: Vec<&[u64; 4]> = b.scalars.iter().collect();
     let ncomp = std::cmp::min(b.bases.len(), b.scalars.len());
     // default entry point; the window it selects must be in 1..=16
-    let w = cr("find_pippinger_window", || G::Aff::find_pippinger_window(ncomp))?;
+    let w = cr("find_pippinger_window", || G::op_find_pippinger_window(ncomp))?;
     if !(1..=16).contains(&w) {
         return Err(format!("find_pippinger_window({}) = {} outside 1..=16", ncomp, w));
     }
     info.class(format!("default-window={}", w));
-    let t = cr("sum_of_products", || G::Aff::sum_of_products(&b.bases, &refs))?;
+    let t = cr("sum_of_products", || G::op_sum_of_products(&b.bases, &refs))?;
     expect::<G>(&format!("sum_of_products (n={}, window {})", ncomp, w), &t, &want)?;
     // explicit window
     let mut win = 1 + (c.window as usize + 19) % 20;
@@ -220,16 +220,16 @@ where
         win += 1;
     }
     info.class(format!("explicit-window={}", win));
-    let t = cr("sum_of_products_pippinger", || G::Aff::sum_of_products_pippinger(&b.bases, &refs, win))?;
+    let t = cr("sum_of_products_pippinger", || G::op_sum_of_products_pippinger(&b.bases, &refs, win))?;
     expect::<G>(&format!("sum_of_products_pippinger (n={}, window {})", ncomp, win), &t, &want)?;
     // table-driven variant, tables from the crate's own 256-entry precomputation
     let limit = if G::NAME == "G1" { 12 } else { 4 };
     if b.bases.len() <= limit {
         let mut pre = vec![G::Aff::zero(); 256 * b.bases.len()];
         for (j, p) in b.bases.iter().enumerate() {
-            cr("precomp_256", || p.precomp_256(&mut pre[j * 256..(j + 1) * 256]))?;
+            cr("precomp_256", || G::op_precomp_256(p, &mut pre[j * 256..(j + 1) * 256]))?;
         }
-        let t = cr("sum_of_products_precomp_256", || G::Aff::sum_of_products_precomp_256(&b.bases, &refs, &pre))?;
+        let t = cr("sum_of_products_precomp_256", || G::op_sum_of_products_precomp_256(&b.bases, &refs, &pre))?;
         expect::<G>(&format!("sum_of_products_precomp_256 (n={})", ncomp), &t, &want)?;
         info.class("precomp_256-variant-checked");
     }
@@ -314,8 +314,8 @@ where
     let b = build::<G>(&c);
     let want = G::curve().mul(&b.exponent, &G::gen());
     let refs: Vec<&[u64; 4]> = b.scalars.iter().collect();
-    let w = cr("find_pippinger_window", || G::Aff::find_pippinger_window(n))?;
-    let t = cr("sum_of_products", || G::Aff::sum_of_products(&b.bases, &refs))?;
+    let w = cr("find_pippinger_window", || G::op_find_pippinger_window(n))?;
+    let t = cr("sum_of_products", || G::op_sum_of_products(&b.bases, &refs))?;
     expect::<G>(&format!("sum_of_products (n={}, window {})", n, w), &t, &want)?;
     Ok(w)
 }
@@ -387,7 +387,7 @@ where
     let b = build::<G>(&c);
     let want = G::curve().mul(&b.exponent, &G::gen());
     let refs: Vec<&[u64; 4]> = b.scalars.iter().collect();
-    let t = cr("sum_of_products_pippinger", || G::Aff::sum_of_products_pippinger(&b.bases, &refs, w))?;
+    let t = cr("sum_of_products_pippinger", || G::op_sum_of_products_pippinger(&b.bases, &refs, w))?;
     expect::<G>(&format!("sum_of_products_pippinger (n=7, window {})", w), &t, &want)
 }
 
@@ -437,7 +437,7 @@ pub fn def() -> PropDef {
         rule: "lists built from a generated pattern of (point with known discrete log: identity, [j]G, pool subgroup point; optionally negated; structured scalar < 2^255) cycled to a generated length n (0, 1, 2, 0..40, every window-selection boundary +-1 up to 1259, 40..700) with per-repetition scalar steps, surplus entries in one list, explicit windows 1..=16 generated and 17..=20 enumerated; expected value [sum k_i a_i mod r]G from one model multiplication; all three entry points (precomp_256 variant for short lists). Non-trivial = n >= 2 with a duplicate, an inverse pair, an identity or a word-straddling / dense scalar; distinct = distinct cases. Exhaustive: find_pippinger_window(n) in 1..=16 for all n <= 2^20 (quick) / 2^23 (thorough) plus powers of two +-1 up to usize::MAX; lists at every selection boundary +-1",
         needs_pairing: false,
         subs: vec![
-            Box::new(Sub { name: "g1-lists", rule: "G1 lists through sum_of_products / _pippinger(window) / _precomp_256", quick: 1200, thorough: 40_000, strategy: || boxed(msm_strategy(0)), check: check_msm_any }),
+            Box::new(Sub { name: "g1-lists", rule: "G1 lists through sum_of_products / _pippinger(window) / _precomp_256", quick: 1_200, thorough: 40_000, strategy: || boxed(msm_strategy(0)), check: check_msm_any }),
             Box::new(Sub { name: "g2-lists", rule: "G2 lists, same entry points", quick: 500, thorough: 15_000, strategy: || boxed(msm_strategy(1)), check: check_msm_any }),
             Box::new(EnumSub { name: "large-windows", rule: "sum_of_products_pippinger with windows 17..=20 (a bucket pass costs ~2^w additions, so these are enumerated on one structured 7-entry list: G1 17..=20 and G2 17 in quick, both groups 17..=20 in thorough)", run: run_large, replay: replay_large, exhaustive: false }),
             Box::new(EnumSub { name: "window-heuristic", rule: "find_pippinger_window(n) within 1..=16 (enumerated; evidence counts each returned window once)", run: run_heuristic, replay: replay_heuristic, exhaustive: true }),
